@@ -889,6 +889,14 @@ class TextXMetaMetaModel:
             )
         return self._metamodel
 
+    def __getitem__(self, name):
+        """
+        Returns the class of the textX meta-language with the given name. Makes
+        rules of the textX language referable from grammars that reference it
+        (`reference textX as t`).
+        """
+        return self.metamodel[name]
+
     def model_from_str(self, model_str, debug=None, **kwargs):
         """
         Instantiates meta-model (a.k.a. textX model) from the given string.
